@@ -30,6 +30,14 @@ pub use setup::{AgentOptions, setup};
 pub use uni::spawn_unipayload_handler;
 pub use util::process_multiple_changes;
 
+/// Verification hooks (compiled only with `--cfg corro_verif`): public access
+/// to private items so an external harness can drive them.
+#[cfg(corro_verif)]
+pub mod verif_hooks {
+    pub use super::handlers::handle_changes;
+    pub use super::util::VERIF_FAIL_BATCHES;
+}
+
 pub const ANNOUNCE_INTERVAL: Duration = Duration::from_secs(300);
 pub const RANDOM_NODES_CHOICES: usize = 10;
 
